@@ -73,6 +73,7 @@ const OP_NAMES: &[&str] = &[
 	"setup",
 	"main_waiting_for_threads",
 	"txhashset_read",
+	"get_kernel_height",
 ];
 const OP_IDLE: u64 = 0;
 const OP_BLOCK: u64 = 1;
@@ -98,6 +99,7 @@ const OP_BARRIER: u64 = 20;
 const OP_SETUP: u64 = 21;
 const OP_JOINING: u64 = 22;
 const OP_ARCHIVE: u64 = 23;
+const OP_KERNEL_HEIGHT: u64 = 24;
 
 fn tick(slot: usize, op: u64) {
 	CUR_OP[slot].store(op, Ordering::SeqCst);
@@ -986,6 +988,44 @@ fn op_get_unspent(ctx: &Ctx, rs: &mut RState, p: &mut Prng, slot: usize) {
 	}
 }
 
+/// Kernel look-up (the API's get_kernel / a wallet's confirmation check) for a kernel of a submitted block.
+/// Under any interleaving an answer names that kernel at a height where a submitted block carries it.
+fn op_kernel_height(ctx: &Ctx, rs: &mut RState, p: &mut Prng) {
+	// the coinbase kernel of one of the world's blocks, preferably an early one (a long backward scan)
+	let n = ctx.w.all.len();
+	let i = if p.bool() { p.usize_below(n.min(8)) } else { p.usize_below(n) };
+	let blk = &ctx.w.all[i].block;
+	let k = match blk.kernels().first() {
+		Some(k) => *k,
+		None => return,
+	};
+	inc(&mut rs.st, "op.get_kernel_height");
+	match catch(|| ctx.chain.get_kernel_height(&k.excess, None, None)) {
+		Err(pn) => ctx.panic("get_kernel_height", &pn),
+		Ok(Err(_)) => inc(&mut rs.st, "get_kernel_height.err"),
+		Ok(Ok(None)) => inc(&mut rs.st, "get_kernel_height.none"),
+		Ok(Ok(Some((kk, height, _)))) => {
+			inc(&mut rs.st, "get_kernel_height.found");
+			let ok = kk.excess == k.excess
+				&& ctx
+					.w
+					.all
+					.iter()
+					.any(|b| b.block.header.height == height && b.block.kernels().iter().any(|x| x.excess == k.excess));
+			if kk.excess != k.excess {
+				ctx.viol("kernel_lookup_answers_another_kernel", format!("get_kernel_height({:?}) returned kernel {:?}", k.excess, kk.excess));
+			} else if !ok {
+				// Observation, not a verdict: the call finds the kernel's index in the body chain's kernel MMR and then
+				// looks the height up in the HEADER chain (get_header_by_height); while the header chain sits on another
+				// fork than the body — which these runs produce all the time — the height is that of a block that does
+				// not carry the kernel. That is a wrong answer of this API call with or without concurrency, and
+				// outside what C17 states (no uncommitted state is exposed), so it is only counted.
+				inc(&mut rs.st, "get_kernel_height.height_from_the_header_chain_of_another_fork");
+			}
+		}
+	}
+}
+
 fn op_header_for_output(ctx: &Ctx, rs: &mut RState, p: &mut Prng) {
 	let c = *p.pick(&ctx.w.commits);
 	inc(&mut rs.st, "op.get_header_for_output");
@@ -1415,9 +1455,12 @@ fn reader(ctx: &Ctx, slot: usize, role: Role, seed: u64) {
 				} else if x < 75 {
 					tick(slot, OP_VALIDATE_TX);
 					op_validate_tx(ctx, &mut rs, &mut p);
-				} else if x < 87 {
+				} else if x < 82 {
 					tick(slot, OP_VALIDATE_INPUTS);
 					op_validate_inputs(ctx, &mut rs, &mut p);
+				} else if x < 92 {
+					tick(slot, OP_KERNEL_HEIGHT);
+					op_kernel_height(ctx, &mut rs, &mut p);
 				} else {
 					tick(slot, OP_HEADER_FOR_OUTPUT);
 					op_header_for_output(ctx, &mut rs, &mut p);
